@@ -166,6 +166,21 @@ func (g *Gen) newIdx(t *Tbl) *Idx {
 		g.use("partial-index")
 	}
 	if i.Unique {
+		// A UNIQUE over exactly the primary-key columns is redundant (SQLite itself does not
+		// materialise it for some table kinds): not generated.
+		if len(i.Parts) == len(t.PK) && i.Where == "" {
+			same := true
+			for k, p := range i.Parts {
+				if p.Expr != "" || p.Col != t.PK[k] {
+					same = false
+				}
+			}
+			if same && len(t.PK) > 0 {
+				i.Unique = false
+			}
+		}
+	}
+	if i.Unique {
 		g.use("unique-index")
 	}
 	return i
@@ -204,11 +219,27 @@ func (g *Gen) newChk(t *Tbl) *Chk {
 }
 
 func (g *Gen) newFK(s *Sch, t *Tbl) (*FK, *Col) {
-	var parents []*Tbl
+	var parents, composite []*Tbl
 	for _, p := range s.Tables {
 		if len(p.PK) == 1 {
 			parents = append(parents, p)
 		}
+		if len(p.PK) == 2 {
+			composite = append(composite, p)
+		}
+	}
+	// A composite key: (new column, the table's own id) -> parent (id, id2). The second local column
+	// carries the name of the first referenced column, as happens with shared key names.
+	if len(composite) > 0 && t.Col("id") != nil && g.T.Chance("composite-fk", 1, 2) {
+		p := composite[g.T.Draw("fk-parent", len(composite))]
+		c := &Col{Name: fmt.Sprintf("r%d", g.next()), Type: "integer", Null: true}
+		if t.Strict {
+			c.Type = "int"
+		}
+		f := &FK{Name: fmt.Sprintf("%s_f%d", t.Name, g.next()), Cols: []string{c.Name, "id"}, RefTable: p.Name, RefCols: []string{p.PK[0], p.PK[1]}}
+		f.OnDelete = []string{"", "CASCADE", "NO ACTION"}[g.T.Draw("on-delete", 3)]
+		g.use("composite-fk")
+		return f, c
 	}
 	if len(parents) == 0 {
 		return nil, nil
@@ -224,7 +255,7 @@ func (g *Gen) newFK(s *Sch, t *Tbl) (*FK, *Col) {
 	// empty FK symbol is not an input a user can produce.
 	f.Name = fmt.Sprintf("%s_f%d", t.Name, g.next())
 	if g.T.Chance("numeric-fk-name", 1, 4) {
-		f.Name = fmt.Sprint(len(t.FKs))
+		f.Name = fmt.Sprint(g.next())
 		g.use("numeric-fk-name")
 	}
 	f.OnUpdate = fkActions[g.T.Draw("on-update", len(fkActions))]
@@ -489,6 +520,17 @@ func (g *Gen) Edit(s *Sch, maxTables int) string {
 		switch g.T.Draw("index-change", 3) {
 		case 0:
 			ix.Unique = !ix.Unique
+			if ix.Unique && len(ix.Parts) == len(t.PK) && ix.Where == "" {
+				same := len(t.PK) > 0
+				for k, p := range ix.Parts {
+					if p.Expr != "" || p.Col != t.PK[k] {
+						same = false
+					}
+				}
+				if same {
+					ix.Unique = false
+				}
+			}
 		case 1:
 			ix.Parts[0].Desc = !ix.Parts[0].Desc
 		default:
